@@ -269,12 +269,19 @@ impl DebuggerContext {
                 }),
             );
 
-            match vm.parse(&rule, &input) {
-                Ok(_) => sender.send(DebuggerEvent::Eof).expect(CHANNEL_CLOSED_PANIC),
-                Err(error) => sender
-                    .send(DebuggerEvent::Error(error.to_string()))
-                    .expect(CHANNEL_CLOSED_PANIC),
-            };
+            let result = vm.parse(&rule, &input);
+            // If `is_done` is already set, `run` has asked this thread to stop in favour of a new
+            // one and is joining it: nobody will receive this run's outcome, and the channel slot
+            // may still hold a breakpoint delivered just before the request, so sending here
+            // could block forever.
+            if !is_done.load(Ordering::SeqCst) {
+                match result {
+                    Ok(_) => sender.send(DebuggerEvent::Eof).expect(CHANNEL_CLOSED_PANIC),
+                    Err(error) => sender
+                        .send(DebuggerEvent::Error(error.to_string()))
+                        .expect(CHANNEL_CLOSED_PANIC),
+                };
+            }
 
             is_done.store(true, Ordering::SeqCst);
         })
